@@ -39,8 +39,10 @@ LAYOUTS = {
 SPACING = 100
 
 
-def build(d, run_layouts, mid_super, rechunk, write_superruns):
-    """run_layouts: {run_id: (t0, layout name)}"""
+def build(d, run_layouts, mid_super, rechunk, write_superruns, top_overlap=False):
+    """run_layouts: {run_id: (t0, layout name)}; top_overlap: False, or the window w of an OverlapWindowPlugin as the top plugin (True = 2;
+    with w = 3 the point where the plugin cuts its result lies inside a row, so the cut is moved: Chunk.split(allow_early_split=True))"""
+    w = 2 if top_overlap is True else int(top_overlap)
     chunks_by_run = {r: LAYOUTS[name](t0) for r, (t0, name) in run_layouts.items()}
 
     class Src(strax.Plugin):
@@ -62,7 +64,7 @@ def build(d, run_layouts, mid_super, rechunk, write_superruns):
             return self.chunk(start=c["s"], end=c["e"], data=H.rows_to_array(c["rows"]))
     mid = H.rowmap("mid", "src", rechunk_on_save=rechunk)
     mid.allow_superrun = mid_super
-    top = H.rowmap("top", "mid", mul=2, add=0, rechunk_on_save=rechunk)
+    top = H.overlap("top", "mid", w, w, rechunk_on_save=rechunk) if top_overlap else H.rowmap("top", "mid", mul=2, add=0, rechunk_on_save=rechunk)
     top.allow_superrun = True
     st = strax.Context(storage=[strax.DataDirectory(d, provide_run_metadata=True, deep_scan=True)], register=[Src, mid, top],
                        allow_multiprocess=False, timeout=120)
@@ -97,21 +99,29 @@ def chunk_obs(ch):
 def scenario(arg):
     order, layouts, mid_super, rechunk, write, processor, target = arg[:7]
     id_order_is_start_order = arg[7] if len(arg) > 7 else True
+    top_overlap = arg[8] if len(arg) > 8 else False
     d = tempfile.mkdtemp(prefix="verif_c14_")
     res = dict(arg=arg, err=None, obs=[], extra=[])
     try:
         # run ids in definition order `order`; start times by index in sorted order of id
         # start times increase with the run id, or (second family) decrease: the subruns are ordered by run start, not by name
         run_layouts = {r: (SPACING * (int(r) if id_order_is_start_order else 9 - int(r)), layouts[i % len(layouts)]) for i, r in enumerate(order)}
-        st, chunks_by_run = build(d, run_layouts, mid_super, rechunk, write)
+        st, chunks_by_run = build(d, run_layouts, mid_super, rechunk, write, top_overlap)
         write_run_docs(st, run_layouts)
+
+        def want_v(runs_in_order):
+            if not (top_overlap and target == "top"):
+                return [x[2] for r in runs_in_order for x in expected_rows(chunks_by_run[r], target)]
+            rows = [x for r in runs_in_order for x in expected_rows(chunks_by_run[r], "mid")]      # window-local count over the whole superrun
+            w = 2 if top_overlap is True else int(top_overlap)
+            return [sum(1 for y in rows if y[0] >= x[0] - w and y[1] <= x[1] + w) for x in rows]
         with warnings.catch_warnings():
             warnings.simplefilter("ignore")
             st.define_run("_sup", data=list(order))
             by_start = sorted(order, key=lambda r: run_layouts[r][0])
             subs = [dict(run=r, chunks=[dict(s=c["s"], e=c["e"], rows=[[x[0], x[1]] for x in c["rows"]]) for c in chunks_by_run[r]])
                     for r in by_start]
-            exp_v = [x[2] for r in by_start for x in expected_rows(chunks_by_run[r], target)]
+            exp_v = want_v(by_start)
             chunks = [chunk_obs(c) for c in st.get_iter("_sup", target, processor=processor, progress_bar=False)]
             got_v = [v for c in chunks for v in c["v"]]
             if got_v != exp_v:
@@ -122,7 +132,7 @@ def scenario(arg):
                 if not st.is_stored("_sup", target):
                     res["extra"].append("write_superruns is on but the superrun data type is not stored")
                 else:
-                    st2, _ = build(d, run_layouts, mid_super, rechunk, write)
+                    st2, _ = build(d, run_layouts, mid_super, rechunk, write, top_overlap)
                     chunks2 = [chunk_obs(c) for c in st2.get_iter("_sup", target, processor=processor, progress_bar=False)]
                     if [v for c in chunks2 for v in c["v"]] != exp_v:
                         res["extra"].append("stored superrun re-read differs from the ordered concatenation")
@@ -148,7 +158,7 @@ def scenario(arg):
                 by_start2 = sorted(new_order, key=lambda r: run_layouts[r][0])
                 subs2 = [dict(run=r, chunks=[dict(s=c["s"], e=c["e"], rows=[[x[0], x[1]] for x in c["rows"]]) for c in chunks_by_run[r]])
                          for r in by_start2]
-                exp2 = [x[2] for r in by_start2 for x in expected_rows(chunks_by_run[r], target)]
+                exp2 = want_v(by_start2)
                 chunks3 = [chunk_obs(c) for c in st.get_iter("_sup", target, processor=processor, progress_bar=False)]
                 if [v for c in chunks3 for v in c["v"]] != exp2:
                     res["extra"].append(f"after redefining the superrun as {new_order} (define_run({name!r})) the same context delivers payloads "
@@ -287,13 +297,17 @@ def run(chk):
                             work.append((order, lay, mid_super, rechunk, write, processor, target, True))
                             if len(order) > 1 and li < 2 and target == "top":
                                 work.append((order, lay, mid_super, rechunk, write, processor, target, False))
+                            # the superrun-capable level is an overlap-window plugin (its results are split and cached across chunk borders)
+                            if len(order) > 1 and li in (1, 2) and target == "top":
+                                work.append((order, lay, mid_super, rechunk, write, processor, target, True, True))
+                                work.append((order, lay, mid_super, rechunk, write, processor, target, True, 3))
     res = V.pmap(scenario, work)
     obs, idx = [], []
     for i, rr in enumerate(res):
         chk.case(key=json.dumps(rr["arg"]), nontrivial=len(rr["arg"][0]) > 1)
         a = rr["arg"]
         name = (f"subruns={a[0]} layouts={a[1]} mid_allows_superrun={a[2]} rechunk={a[3]} write_superruns={a[4]} {a[5]} target={a[6]}"
-                + ("" if a[7] else " run-ids-in-reverse-start-order"))
+                + ("" if a[7] else " run-ids-in-reverse-start-order") + (f" top=overlap-window({2 if a[8] is True else a[8]})" if len(a) > 8 and a[8] else ""))
         if rr["err"]:
             chk.violation(f"C14:raises:{rr['err'].split(':')[0]}:{json.dumps(a)}", f"{name}: raised {rr['err']}", dict(arg=a))
             continue
@@ -333,6 +347,6 @@ def replay(chk, path):
         print("error:", rr["err"], "(validate with bin/check C14: the history is judged by TLC against Superrun.tla)")
         return 1 if rr["err"] else 0
     a = rp["arg"]
-    rr = scenario((tuple(a[0]), tuple(a[1]), a[2], a[3], a[4], a[5], a[6], a[7] if len(a) > 7 else True))
+    rr = scenario((tuple(a[0]), tuple(a[1]), a[2], a[3], a[4], a[5], a[6], a[7] if len(a) > 7 else True, a[8] if len(a) > 8 else False))
     print(rr["err"], rr["extra"], rr["obs"][:1])
     return 1 if (rr["err"] or rr["extra"]) else 0
